@@ -8,6 +8,7 @@ package server
 // command documentation; semantic content comes from the maps.
 
 import (
+	"math"
 	"fmt"
 	"sort"
 	"strconv"
@@ -155,8 +156,18 @@ func mParseObject(a []string) (kind byte, val string, n int, errc string) {
 		hasZ := false
 		if len(a) > 3 {
 			if zz, e := strconv.ParseFloat(a[3], 64); e == nil {
+				if math.IsNaN(zz) || math.IsInf(zz, 0) {
+					return 0, "", 0, "~err:invalid argument '" + a[3] + "'"
+				}
 				z, hasZ, n = zz, true, 4
 			}
+		}
+		// coordinates are finite numbers
+		if e1 == nil && (math.IsNaN(lat) || math.IsInf(lat, 0)) {
+			e1 = strconv.ErrSyntax
+		}
+		if e2 == nil && (math.IsNaN(lon) || math.IsInf(lon, 0)) {
+			e2 = strconv.ErrSyntax
 		}
 		if e1 != nil {
 			return 0, "", 0, "~err:invalid argument '" + a[1] + "'"
@@ -175,7 +186,7 @@ func mParseObject(a []string) (kind byte, val string, n int, errc string) {
 		var v [4]float64
 		for i := 0; i < 4; i++ {
 			f, e := strconv.ParseFloat(a[1+i], 64)
-			if e != nil {
+			if e != nil || math.IsNaN(f) || math.IsInf(f, 0) {
 				return 0, "", 0, "~err:invalid argument '" + a[1+i] + "'"
 			}
 			v[i] = f
